@@ -4,9 +4,9 @@ cd "$(dirname "$0")/.."
 for d in ${SEEDS:-seeded/*}; do
   id=$(basename $d); pid=${id%%-*}
   out=$(tools/try_seed.sh "$PWD/$d/patch.diff" $pid 2>&1)
-  if echo "$out" | grep -q "PATCH-DOES-NOT-APPLY"; then echo "$id DOES-NOT-APPLY";
-  elif echo "$out" | grep -q "HARNESS"; then echo "$id HARNESS-ERROR";
-  elif echo "$out" | grep -q "^VIOLATION"; then echo "$id caught: $(echo "$out" | grep -m1 "^  signature" | cut -c1-110)";
+  if echo "$out" | grep -a -q "PATCH-DOES-NOT-APPLY"; then echo "$id DOES-NOT-APPLY";
+  elif echo "$out" | grep -a -q "HARNESS"; then echo "$id HARNESS-ERROR";
+  elif echo "$out" | grep -a -q "^VIOLATION"; then echo "$id caught: $(echo "$out" | grep -a -m1 "^  signature" | cut -c1-110)";
   else echo "$id MISSED"; fi
 done
 echo "check_seeds done"
